@@ -13,9 +13,14 @@ def plan(quick, thorough):
 CONC = dict(cfg="tsan", parts=4, mode="conc", timeout=1800)
 
 
-def std(quick_parts=16, thorough_extra=None, conc=True):
-    q = [dict(cfg="asan", parts=quick_parts)] + ([dict(CONC)] if conc else [])
-    t = [dict(cfg="asan", parts=16, tier="quick"), dict(cfg="plain", parts=16)] + ([dict(CONC, parts=8)] if conc else [])
+# allocation-failure injection: a plain build whose malloc family (the harness' own, -DVP_OOM) refuses every request made inside a
+# call under test; mode "oom" runs only those cases
+OOM = dict(cfg="plain", tag="oom", defs="-DVP_OOM", parts=2, mode="oom", timeout=1800)
+
+
+def std(quick_parts=16, thorough_extra=None, conc=True, oom=False):
+    q = [dict(cfg="asan", parts=quick_parts)] + ([dict(CONC)] if conc else []) + ([dict(OOM)] if oom else [])
+    t = [dict(cfg="asan", parts=16, tier="quick"), dict(cfg="plain", parts=16)] + ([dict(CONC, parts=8)] if conc else []) + ([dict(OOM, parts=4)] if oom else [])
     if thorough_extra:
         t += thorough_extra
     return plan(q, t)
@@ -28,7 +33,7 @@ PROPS = {
             quick=["every residue p mod 2N for every N = 1..8192 on all 11 coefficient kernels (7 for even p) with the injective probe a_i = i+1 "
                    "(the maps are data-independent signed permutations, so one injective probe determines them); counts per N in monitors.exhaustive_residues:*"],
             thorough=["every residue p mod 2N for every N = 1..65536 on all 11 coefficient kernels; far representatives r + 2N t for N <= 4096"]),
-        runs=std(),
+        runs=std(oom=True),
         rule=("case = (kernel group, N, block of residues p mod 2N | special class list | sampled block | wrapper "
               "call sequence); distinct by descriptor hash; non-trivial when N >= 2 (maps differ from identity "
               "for some p in the block)"
@@ -189,7 +194,7 @@ PROPS = {
     ),
     "C13": dict(
         technique='runtime monitoring: aliased-vs-separate differential (bitwise) for every supported aliasing pattern, ASan+UBSan + ThreadSanitizer pass over the multi-threaded cases; buffer placement modes (aligned, adjacent, guard pages, far apart incl. exact multiples of 64 GiB, packed, nearby page offsets) and a per-process prelude of unrelated calls',
-        runs=std(),
+        runs=std(oom=True),
         rule=("case = one aliasing pattern exercised once (operation+pattern, N, module type, dispatch, res/aliased/other "
               "limb counts, strides, p class, repetition): the out-of-place call on a copy and the aliased call; "
               "distinct by descriptor hash; non-trivial when the aliased operand and the output have >= 1 limb"
@@ -238,7 +243,10 @@ PROPS = {
         technique="runtime monitoring: ThreadSanitizer + read-only (mprotect) tables + concurrent-vs-sequential differential + cold first use, concurrent construction / allocation, thread churn, oversubscription, constant-argument jobs side by side, warm-up by a thread that exits; helgrind in the thorough tier",
     ),
     "C15": dict(
-        runs=std(),
+        # (the plain run: no sanitizer allocator, glibc's heap perturbed with a byte chosen per process - M_PERTURB - so that memory
+        # a constructor leaves unwritten differs between the workload and the fresh-process reference)
+        runs=plan([dict(cfg="asan", parts=16), dict(CONC), dict(cfg="plain", parts=8, mode="plainheap"), dict(OOM)],
+                  [dict(cfg="asan", parts=16, tier="quick"), dict(cfg="plain", parts=16, mode="plainheap"), dict(CONC, parts=8), dict(OOM, parts=4)]),
         rule=("case = one random program of 300 catalogue calls over a working set of 48 (environment, function, argument "
               "seed) triples drawn from 12 dimensions, both dispatch configurations and every entry point, one third of "
               "them on the functions with hidden caches; distinct by descriptor hash (program number); non-trivial when "
